@@ -12,7 +12,20 @@ from __future__ import annotations
 import ast
 
 from .e1_srcmodel import dotted
-from .e3_masks import MaskTyper, _join as join_types
+from .e3_masks import MaskTyper, A, _join as join_types
+
+
+class A2(A):
+    """a mask that remembers the selector name it was created under: a selection by it is the same sub-space in whatever function, and under whatever
+    parameter / loop-variable name, the mask is used"""
+    __slots__ = ("sel",)
+
+    def __init__(self, s, kind, sel):
+        super().__init__(s, kind)
+        self.sel = sel
+
+
+_SERIAL = [0]
 
 
 class Tup(list):
@@ -31,10 +44,40 @@ class Fn:
         self.name = name
 
 
-def _join_any(a, b):
+class Str:
+    """a constant string (a coefficient name held by a loop variable)"""
+
+    def __init__(self, v):
+        self.v = v
+
+
+class DictT(dict):
+    """types of the entries of a dict with constant string keys (rows / arrays by coefficient name)"""
+
+
+NONEV = "the value None"        # `x = None` as a placeholder: the other arm of the branch says what x is when it is used
+
+
+def _join_any(a, b, in1=True, in2=True):
+    if isinstance(a, str) and a == NONEV:
+        return b
+    if isinstance(b, str) and b == NONEV:
+        return a
+    if isinstance(a, Tup) and isinstance(b, Tup) and (not a or not b):
+        return a or b            # `x if c else ()`: iterating the empty tuple does nothing
+    if isinstance(a, DictT) and isinstance(b, DictT) and set(a) == set(b):
+        return DictT((k, _join_any(a[k], b[k])) for k in a)
     if isinstance(a, Tup) and isinstance(b, Tup) and len(a) == len(b):
         return Tup(_join_any(x, y) for x, y in zip(a, b))
-    return join_types(a, b, True, True)
+    return join_types(a, b, in1, in2)
+
+
+class _Typed(ast.Name):
+    """an argument whose type is already known (element of an expanded *args)"""
+
+    def __init__(self, t):
+        super().__init__(id="<typed>", ctx=ast.Load())
+        self.t = t
 
 
 class MaskTyper01(MaskTyper):
@@ -43,9 +86,67 @@ class MaskTyper01(MaskTyper):
         self.inline = dict(inline or {})
         self.depth = depth
         self.rets = []
+        self.closures = set()       # names of local helpers (nested def): followed with the enclosing scope visible
+        self.serial = 0
+
+    def _sel_name(self, node):
+        if isinstance(node, ast.Name):
+            t = self.env.get(node.id)
+            if isinstance(t, A2):
+                return t.sel
+        return super()._sel_name(node)
 
     # ---- expressions
+    def module_const(self, name):
+        """a module-level tuple of strings (coefficient names) the function refers to by name"""
+        mod = getattr(self, "mod", None)
+        if mod is None:
+            return None
+        hits = [st for st in mod.tree.body if isinstance(st, ast.Assign) and any(isinstance(t, ast.Name) and t.id == name for t in st.targets)]
+        if len(hits) == 1 and isinstance(hits[0].value, (ast.Tuple, ast.List)) and all(isinstance(e, ast.Constant) and isinstance(e.value, str) for e in hits[0].value.elts):
+            return Tup(Str(e.value) for e in hits[0].value.elts)
+        return None
+
     def ty(self, node):
+        if isinstance(node, _Typed):
+            return node.t
+        if isinstance(node, ast.Constant) and node.value is None:
+            return NONEV
+        if isinstance(node, ast.Constant) and isinstance(node.value, str):
+            return Str(node.value)
+        if isinstance(node, ast.Name) and node.id not in self.env and node.id not in self.inline:
+            t = self.module_const(node.id)
+            if t is not None:
+                return t
+        if isinstance(node, ast.Dict) and node.keys and all(isinstance(k, ast.Constant) and isinstance(k.value, str) for k in node.keys):
+            return DictT((k.value, self.ty(v)) for k, v in zip(node.keys, node.values))
+        if isinstance(node, (ast.DictComp, ast.GeneratorExp, ast.ListComp)) and len(node.generators) == 1 and not node.generators[0].ifs:
+            items = self.items(node.generators[0].iter)
+            if items is not None and len(items) <= 16:
+                out = []
+                for it in items:
+                    self.bind(node.generators[0].target, it, node)
+                    if isinstance(node, ast.DictComp):
+                        k = self.ty(node.key)
+                        if not isinstance(k, Str):
+                            return None
+                        out.append((k.v, self.ty(node.value)))
+                    else:
+                        out.append(self.ty(node.elt))
+                return DictT(out) if isinstance(node, ast.DictComp) else Tup(out)
+        if isinstance(node, ast.Subscript):
+            b = self.ty(node.value)
+            if isinstance(b, DictT):
+                k = self.ty(node.slice)
+                return b.get(k.v) if isinstance(k, Str) else None
+            if isinstance(b, Tup) and isinstance(node.slice, ast.Constant) and isinstance(node.slice.value, int) and -len(b) <= node.slice.value < len(b):
+                return b[node.slice.value]
+        if isinstance(node, ast.BinOp) and isinstance(node.op, ast.Add):
+            a, b = self.ty(node.left), self.ty(node.right)
+            if isinstance(a, Tup) and isinstance(b, Tup):
+                return Tup(list(a) + list(b))
+            if isinstance(a, Tup) or isinstance(b, Tup):
+                return None
         if isinstance(node, ast.Name) and node.id not in self.env and node.id in self.inline:
             return Fn(node.id)
         if isinstance(node, (ast.Tuple, ast.List)):
@@ -65,9 +166,36 @@ class MaskTyper01(MaskTyper):
 
     def call(self, node):
         d = dotted(node.func)
+        if d == "dict":
+            out = DictT()
+            if len(node.args) == 1:
+                items = self.items(node.args[0])
+                if items is None or not all(isinstance(it, Tup) and len(it) == 2 and isinstance(it[0], Str) for it in items):
+                    return None
+                out.update((it[0].v, it[1]) for it in items)
+            elif node.args:
+                return None
+            for k in node.keywords:
+                if k.arg is None:
+                    return None
+                out[k.arg] = self.ty(k.value)
+            return out
+        if d in ("tuple", "list") and len(node.args) == 1:
+            t = self.ty(node.args[0])
+            return t if isinstance(t, Tup) else None
         if isinstance(node.func, ast.Name) and isinstance(self.env.get(node.func.id), Fn):
             d = self.env[node.func.id].name
         fn = self.inline.get(d) if d else None
+        if fn is not None and self.depth < 4 and any(isinstance(a, ast.Starred) for a in node.args) and not any(k.arg is None for k in node.keywords):
+            flat = []
+            for a in node.args:
+                t = self.ty(a.value) if isinstance(a, ast.Starred) else None
+                if isinstance(a, ast.Starred) and not isinstance(t, Tup):
+                    flat = None
+                    break
+                flat.extend([_Typed(x) for x in t] if isinstance(a, ast.Starred) else [a])
+            if flat is not None:
+                node = ast.copy_location(ast.Call(func=node.func, args=flat, keywords=node.keywords), node)
         if fn is not None and self.depth < 4 and not any(isinstance(a, ast.Starred) for a in node.args) and not any(k.arg is None for k in node.keywords):
             r = self.follow(node, d, fn)
             if r is not NotImplemented:
@@ -82,7 +210,7 @@ class MaskTyper01(MaskTyper):
             params = params[1:]
         if a.vararg or a.kwarg or len(node.args) > len(params):
             return NotImplemented
-        env = {k: v for k, v in self.env.items() if "." in k}
+        env = {k: v for k, v in self.env.items() if "." in k or name in self.closures}
         for p, x in zip(params, node.args):
             env[p] = self.ty(x)
         for k in node.keywords:
@@ -95,7 +223,16 @@ class MaskTyper01(MaskTyper):
                 if p not in dflt:
                     return NotImplemented
                 env[p] = self.ty(dflt[p])
+        from .e3_masks import I as _I
+        for p in list(env):
+            t = env[p]
+            if isinstance(t, _I) and t.cod is None and t.dom is not None and "." not in p:
+                env[p] = _I(t.dom, f"{t.dom}/{p}")       # an index vector built in the argument list: its selection is named after the parameter
         sub = type(self)(env, self.sizes, self.report, self.passthrough, self.cond, self.inline, self.depth + 1)
+        _SERIAL[0] += 1
+        sub.serial = _SERIAL[0]
+        sub.mod = getattr(fn, "_vmod", getattr(self, "mod", None))
+        sub.closures = set(self.closures)
         sub.ver = dict(self.ver)
         sub.run(fn.body)
         self.resolved += sub.resolved
@@ -109,8 +246,28 @@ class MaskTyper01(MaskTyper):
 
     # ---- statements
     def stmt(self, st):
+        if isinstance(st, ast.FunctionDef):
+            self.inline[st.name] = st          # a local helper: typed at its calls, with the enclosing scope visible
+            self.closures.add(st.name)
+            self.env.pop(st.name, None)
+            return
         if isinstance(st, ast.Return):
             self.rets.append(self.ty(st.value) if st.value is not None else None)
+            return
+        if isinstance(st, ast.If) and ast.unparse(st.test).replace(" ", "") not in self.cond:
+            # both arms, then the join (as in the base class) - a `None` placeholder on one side leaves the other side's type
+            self.ty(st.test)
+            env0 = dict(self.env)
+            self.run(st.body)
+            env1 = self.env
+            self.env = dict(env0)
+            self.run(st.orelse)
+            env2 = self.env
+            merged = {}
+            for k in set(env1) | set(env2):
+                a, b = env1.get(k, env0.get(k)), env2.get(k, env0.get(k))
+                merged[k] = _join_any(a, b, k in env1, k in env2)
+            self.env = merged
             return
         if isinstance(st, ast.For):
             items = self.items(st.iter)
@@ -130,10 +287,17 @@ class MaskTyper01(MaskTyper):
             if any(i is None for i in its):
                 return None
             return [Tup(x) for x in zip(*its)]
-        if isinstance(node, ast.Name):
-            t = self.env.get(node.id)
+        if isinstance(node, ast.Call) and isinstance(node.func, ast.Attribute) and node.func.attr in ("items", "keys", "values") and not node.args:
+            t = self.ty(node.func.value)
+            if isinstance(t, DictT):
+                return [Tup([Str(k), v]) if node.func.attr == "items" else (Str(k) if node.func.attr == "keys" else v) for k, v in t.items()]
+            return None
+        if isinstance(node, (ast.Name, ast.Attribute, ast.Subscript, ast.BinOp, ast.Call, ast.IfExp)):
+            t = self.ty(node)
             if isinstance(t, Tup):
                 return list(t)
+            if isinstance(t, DictT):
+                return [Str(k) for k in t]
         return None
 
     def bind(self, target, t, st):
@@ -157,6 +321,12 @@ class MaskTyper01(MaskTyper):
             for t in target.elts:
                 self.assign(t, None, st)
             return
-        if isinstance(v, (Tup, Gen, Fn)) and not isinstance(target, ast.Name):
+        if isinstance(v, (Tup, Gen, Fn, Str, DictT)) and not isinstance(target, ast.Name):
             v = None
-        return super().assign(target, v, st)
+        r = super().assign(target, v, st)
+        if isinstance(target, ast.Name) and type(v) is A and v.kind == "mask" and v.s is not None and self.env.get(target.id) is v:
+            label = MaskTyper._sel_name(self, target)
+            if self.depth:
+                label += f"~{self.serial}"
+            self.env[target.id] = A2(v.s, v.kind, label)
+        return r
